@@ -1,3 +1,4 @@
+pub mod c01;
 pub mod c17;
 
 use crate::runner::Ctx;
@@ -5,6 +6,7 @@ use std::path::Path;
 
 pub fn run(ctx: &Ctx) -> i32 {
     match ctx.property.as_str() {
+        "C01" => c01::run(ctx),
         "C17" => c17::run(ctx),
         other => {
             eprintln!("unknown property {other}");
@@ -16,6 +18,7 @@ pub fn run(ctx: &Ctx) -> i32 {
 /// `pv replay <ID> <file>`: strict re-evaluation of one stored case.
 pub fn replay(ctx: &Ctx, file: &Path) -> i32 {
     let r = match ctx.property.as_str() {
+        "C01" => ctx.replay_file(file, &|c: &str, case: &serde_json::Value| c01::replay_any(c, case, &ctx.known)),
         "C17" => ctx.replay_file(file, &|_c: &str, case: &serde_json::Value| {
             Some(c17::outcome(case.get("source")?.as_str()?, &ctx.known))
         }),
